@@ -13,6 +13,15 @@ CHECKS = {
  "C02": dict(tech="stateful PBT (proptest) + bit-exact ledger invariant over the whole account store",
    text="Same campaign; closed-world scan of ALL MarginfiAccount and Bank accounts after every transaction: per-instruction share deltas of bank totals equal the sum of position deltas bit-exactly, only close_balance/account-close may abandon (bounded) dust, and total - sum(positions) equals the running abandoned dust exactly.",
    ref="DESIGN.md §6 C02"),
+ "C03": dict(tech="stateful PBT (proptest) + exact-rational value-flow oracle per operation",
+   text="Same campaign; every successful deposit/withdraw/borrow/repay (+all variants): tokens the user received vs exact value removed from the position, value credited vs tokens that reached the vault, measured at the share values the instruction transacted at (few-ulp allowance); full withdrawals pay <= floor(value), full repayments bring >= debt. Share values != 1 come from real accrual and real loss socialisation; transfer-fee mints included.",
+   ref="DESIGN.md §6 C03"),
+ "C04": dict(tech="PBT (proptest) portfolios + boundary bisection on the real program + interval reference health",
+   text="Generated portfolios (up to 8/14 banks: weights, isolated tier, e-mode, caps, Pyth EMA/confidence, Switchboard, fixed, stale collateral oracles, ReduceOnly collateral) and one borrow/withdraw bisected to the largest accepted amount; success side judged on the real post-state by an exact-rational enclosure of initial health, converse judged on the exact hypothetical state (obtained inside a flash-loan bracket) of the first rejected amount.",
+   ref="DESIGN.md §6 C04"),
+ "C06": dict(tech="stateful PBT (proptest) + differential probe ([accrue; op] vs [op]) + monotonicity/idempotence invariants",
+   text="Same campaign; after every successful transacting instruction: last_update == clock, share values never decrease, and re-running the instruction from the same pre-state after an explicit accrue gives bit-identical bank totals / share values / fees / vaults / user shares; accrue twice at one timestamp is byte-identical.",
+   ref="DESIGN.md §6 C06"),
  "C16": dict(tech="stateful PBT (proptest) + structural invariants on raw account bytes",
    text="Same campaign; every account after every transaction: distinct banks, one side per bank, sorted slots, tag compatibility, position bounds, stable tags; close/transfer/disabled rules checked against pre/post snapshots.",
    ref="DESIGN.md §6 C16"),
